@@ -96,7 +96,7 @@ func posOutcome(res [][]string, pos int, content string) string {
 	return fmt.Sprintf("%s | position %d | content %q", strings.Join(s, " "), pos, content)
 }
 
-func posScenario(progs [][]posOp) explore.Scenario {
+func posScenario(c0 string, progs [][]posOp) explore.Scenario {
 	const init = "abcdefgh"
 	legal := posSerial(init, progs)
 	return func() (func(), func(*vsched.Exec) explore.Verdict) {
@@ -167,7 +167,7 @@ func posScenario(progs [][]posOp) explore.Scenario {
 			v.Sample = map[string]any{"programs": fmt.Sprint(progs), "outcome": got}
 			fail := func(k, f string, a ...any) explore.Verdict {
 				v.Bad = fmt.Sprintf("one File shared by goroutines running %v: ", progs) + fmt.Sprintf(f, a...) + "\n  wire: " + env.peer.wireString()
-				v.Key = "c12-pos-" + k
+				v.Key = strings.ToLower(c0) + "-pos-" + k
 				return v
 			}
 			if len(env.peer.Bad) > 0 {
@@ -203,7 +203,12 @@ func posPrograms() [][][]posOp {
 }
 
 func init() {
-	reg.Part("C12/sharedpos", func(c *reg.Ctx) *reg.Result {
+	reg.Part("C12/sharedpos", sharedPosPart)
+	reg.Part("C01/sharedpos", sharedPosPart) // C01's clause: what is written through a File is, at the intended offsets, what the served file then contains
+}
+
+func sharedPosPart(c *reg.Ctx) *reg.Result {
+	{
 		total := reg.NewResult(c.Part)
 		minDone := 1 << 30
 		for i, progs := range posPrograms() {
@@ -211,7 +216,7 @@ func init() {
 				total.Exhaustive = false
 				break
 			}
-			r := explore.Run(explore.Config{Prop: "C12", Strategy: "db", Bound: c.ArgInt("bound", 2), Ctx: c, Label: c.Part}, posScenario(progs))
+			r := explore.Run(explore.Config{Prop: c.Property, Strategy: "db", Bound: c.ArgInt("bound", 2), Ctx: c, Label: c.Part}, posScenario(c.Property, progs))
 			total.Evaluations += r.Evaluations
 			total.States += r.States
 			total.Transitions += r.Transitions
@@ -223,7 +228,7 @@ func init() {
 				total.Sample(sm)
 			}
 			for _, v := range r.Violations {
-				total.Violate("C12", v.Key, v.Msg, map[string]any{"programs": fmt.Sprint(progs), "schedule": v.Replay}, v.Trace)
+				total.Violate(c.Property, v.Key, v.Msg, map[string]any{"programs": fmt.Sprint(progs), "schedule": v.Replay}, v.Trace)
 			}
 			if !r.Exhaustive {
 				total.Exhaustive = false
@@ -242,5 +247,5 @@ func init() {
 		total.Notes["db_completed"] = minDone
 		total.Notes["db_target"] = c.ArgInt("bound", 2)
 		return total
-	})
+	}
 }
